@@ -652,6 +652,8 @@ class FileModel:
         if whence == 0:
             if off < 0:
                 it.raise_exc('ValueError', 'negative seek value')
+            if off > SSIZE_MAX:
+                it.raise_exc('OverflowError', 'Python int too large to convert to C ssize_t')
             self.pos = off
         elif whence == 1:
             self.pos = max(0, self.pos + off)
@@ -681,6 +683,9 @@ class FileModel:
 
     def m_fileno(self, it):
         it.raise_exc('io.UnsupportedOperation', 'fileno')
+
+
+SSIZE_MAX = 2 ** 63 - 1
 
 
 class AFile:
@@ -722,6 +727,9 @@ class AFile:
         if whence == 0:
             if it.branch(off < 0):
                 it.raise_exc('ValueError', 'negative seek value')
+            # positions are C ssize_t / off_t values: io.BytesIO and real files refuse anything larger with OverflowError
+            if it.branch(off > SSIZE_MAX):
+                it.raise_exc('OverflowError', 'Python int too large to convert to C ssize_t')
             self.pos = off
         elif whence == 1:
             np = self.pos + off
